@@ -55,7 +55,22 @@ func runC03Deep(c *Ctx) []Violation {
 		format, target = "json", "/*"
 		in.WriteString(`[{"x":1}]`)
 		shape := c.T.Pick("c03.deep.script-shape", "r = [r]", "r = {n: r}", "r = [1, r]")
-		out = fmt.Sprintf(`{"object": {"a": {"custom_func": {"name": "javascript", "args": [{"const": "var r = []; for (var i = 0; i < %d; i++) { %s } r"}]}}}}`, depth, shape)
+		script := fmt.Sprintf("var r = []; for (var i = 0; i < %d; i++) { %s } r", depth, shape)
+		if c.T.Chance("c03.deep.script-odd", 1, 2) {
+			// results that are small to build and enormous, or endless, to convert or to write out
+			script = c.T.Pick("c03.deep.script-odd.kind",
+				// nesting hidden behind values that are referred to twice: chains of 9000 arrays, each hanging below the next
+				"var prev = []; var o = {}; for (var k = 0; k < 40; k++) { var r = prev; for (var i = 0; i < 9000; i++) { r = [r] } o['c' + (100 + k)] = r; prev = r } o",
+				// 40 arrays, written out as 2^40
+				"var a = []; for (var i = 0; i < 40; i++) { a = [a, a] } a",
+				// an array that is all length
+				"var a = []; a.length = 4294967295; a",
+				// a result that is something else the second time it is looked at
+				"var n = 0; var m = new Map(); m.set('s', m); var o = {}; Object.defineProperty(o, 'a', {enumerable: true, get: function() { return n++ ? m : 1 }}); o",
+				// a Map that contains itself and shows nothing to those who iterate over it
+				"var m = new Map(); m.set('s', m); m[Symbol.iterator] = function() { return [][Symbol.iterator]() }; m")
+		}
+		out = fmt.Sprintf(`{"object": {"a": {"custom_func": {"name": "javascript", "args": [{"const": %q}]}}}}`, script)
 		if c.T.Bool("c03.deep.script-result.twice") {
 			out = out[:len(out)-2] + `, "b": ` + out[len(`{"object": {"a": `):]
 		}
